@@ -302,6 +302,75 @@ class Gen:
             self.w_ok = self.w_none
         self.K, self.nr, self.nt, self.ntE = K, nr, nt, ntE
 
+    def resplit(self, ns):
+        """another composition of sum(ns) into len(ns) positive parts (a permutation or a re-split)"""
+        rng = self.rng
+        tot, n = sum(ns), len(ns)
+        if n < 2 or tot == n:
+            return list(ns)
+        for _ in range(20):
+            if rng.chance(0.4):
+                new = list(ns)
+                rng.shuffle(new)
+            else:
+                cuts = sorted({rng.randint(1, tot - 1) for _ in range(n - 1)})
+                while len(cuts) < n - 1:
+                    cuts = sorted(set(cuts) | {rng.randint(1, tot - 1)})
+                new = [b - a for a, b in zip([0] + cuts, cuts + [tot])]
+            if new != list(ns):
+                return new
+        return list(ns)
+
+    def op_resplit(self):
+        """same K, same sum(Nr), sum(Nt) (and sum of the interference antennas), another per-user split, with a
+        NON-UNIFORM path loss stored: big_H must follow the new block structure"""
+        rng = self.rng
+        for _ in range(4):
+            nr, nt, ntE = self.resplit(self.nr), self.resplit(self.nt), self.resplit(self.ntE)
+            if (nr, nt, ntE) != (self.nr, self.nt, self.ntE):
+                break
+            # nothing to re-split (one user, or one antenna each): move to a layout that can be re-split
+            K = rng.randint(2, self.kmax)
+            lay = (K, [rng.randint(1, self.amax) for _ in range(K)], [rng.randint(1, self.amax) for _ in range(K)],
+                   [rng.randint(1, 2) for _ in range(rng.randint(1, 2))] if self.ext else [])
+            self.ops.append(self.init_op('init', *lay))
+            if lay != (self.K, self.nr, self.nt, self.ntE):
+                self.w_ok = self.w_none
+            self.K, self.nr, self.nt, self.ntE = lay
+        else:
+            return
+        K, E = self.K, len(self.ntE)
+        # all entries different (as far as the pool goes), never uniform
+        if self.exact:
+            pool = [Fraction(1), Fraction(1, 4), Fraction(4), Fraction(1, 16), Fraction(9, 16), Fraction(1, 64),
+                    Fraction(25, 4), Fraction(16), Fraction(9, 4), Fraction(1, 256)]
+            if self.mode == 'typed':
+                pool = [Fraction(1), Fraction(4), Fraction(16), Fraction(9), Fraction(25), Fraction(64), Fraction(36)]
+            off = rng.below(len(pool))
+            val = lambda i: scal(pool[(off + i) % len(pool)], 2 * self.ed)
+        else:
+            val = lambda i: repr((0.05 + 0.37 * i) * 10.0 ** (2 * self.ed))
+        p = [[val(k * (K + E) + l) for l in range(K)] for k in range(K)]
+        pe = [[val(k * (K + E) + K + l) for l in range(E)] for k in range(K)]
+        self.ops.append({'op': 'setpl', 'p': p, 'pe': pe if self.ext else None, 'fp': self.pl_fmt(p),
+                         'fpe': self.pl_fmt(pe) if self.ext else None, 'scr': False})
+        if rng.chance(0.6):
+            self.ops.append({'op': rng.choice(['bigH', 'Hk', 'H']), 'k': 0, 'kf': 'py'})
+        kind = 'init' if (rng.chance(0.5) or (self.mode == 'scaled' and self.exact)) else 'rand'
+        op = self.init_op(kind, K, nr, nt, ntE)
+        op['resplit'] = True
+        self.ops.append(op)
+        if (nr, nt, ntE) != (self.nr, self.nt, self.ntE):
+            self.w_ok = self.w_none
+        self.nr, self.nt, self.ntE = nr, nt, ntE
+        self.ops.append({'op': 'bigH'})
+        for k in range(K):
+            self.ops.append({'op': 'Hk', 'k': k, 'kf': 'py'})
+        self.ops.append({'op': 'H'})
+        if self.ext:
+            self.ops.append({'op': 'bigHne'})
+        self.op_corrupt()
+
     # ---- rejected calls (R4): arguments differ from the current configuration
     def op_bad_init(self):
         rng = self.rng
@@ -502,8 +571,10 @@ class Gen:
         self.op_init()
         while len(self.ops) < length:
             u = rng.uniform()
-            if u < 0.11:
+            if u < 0.08:
                 self.op_init()
+            elif u < 0.11:
+                self.op_resplit()
             elif u < 0.135:
                 self.op_bad_init()
             elif u < 0.155:
@@ -1415,9 +1486,32 @@ def nontrivial_flags(ops):
     return flags
 
 
+def is_uniform(p, pe):
+    vals = [Fraction(x) for row in (p or []) for x in row] + [Fraction(x) for row in (pe or []) for x in row]
+    return len(set(vals)) <= 1
+
+
 def note_branches(ctx, case):
     """which robustness classes a history exercises (required branches)"""
     ops = case['ops']
+    lay, nonuni = None, False
+    for op in ops:
+        k = op['op']
+        if op.get('expect'):
+            continue
+        if k == 'setpl':
+            nonuni = op['p'] is not None and not is_uniform(op['p'], op.get('pe'))
+        if k in ('init', 'rand'):
+            new = (op['K'], list(op['nr']), list(op['nt']), list(op['ntE']))
+            if lay is not None and new != lay and new[0] == lay[0] and len(new[3]) == len(lay[3]) \
+                    and all(sum(a) == sum(b) for a, b in zip(new[1:], lay[1:])):
+                if nonuni:
+                    ctx.branch('resplit-same-sums:%s:%s' % (case['cls'], 'randomize' if k == 'rand' else 'init'))
+                    if new[3] != lay[3]:
+                        ctx.branch('resplit-same-sums:ext-sources')
+            elif lay is not None and (new[0], len(new[3])) != (lay[0], len(lay[3])):
+                nonuni = False          # the path loss is dropped
+            lay = new
     if case.get('mode') == 'typed':
         ctx.branch('r1:typed-history')
     if case.get('mode') == 'scaled':
@@ -1535,6 +1629,24 @@ def builtin_corpus():
         {'op': 'Hne'},
         {'op': 'setpl', 'p': [['1', '1/4'], ['1/4', '1']], 'pe': [['1/16'], ['1/64']]},
         {'op': 'Hne'}]})
+    # round 3: re-randomize / re-initialise with the SAME K and the SAME totals but another per-user split, under
+    # a NON-UNIFORM path loss (the expansion of the path loss must follow the new block structure)
+    for cls, E, E2 in (('plain', [], []), ('ext', [1, 2], [2, 1])):
+        pe = [['1/64', '9/16'], ['25/4', '16']] if E else None
+        one = lambda n: _m([[1 + (i % 2) * 1j, 2 - i] for i in range(n)])
+        for how in ('rand', 'init'):
+            re = {'op': how, 'nr': [4, 2], 'nt': [4, 1], 'K': 2, 'ntE': E2}
+            if how == 'rand':
+                re['seed'] = 9
+            else:
+                re['M'] = _m([[(i * 7 + j * 3) % 5 - 2 + 1j * ((i + 2 * j) % 3 - 1) for j in range(5 + sum(E))]
+                              for i in range(6)])
+            cases.append({'cls': cls, 'stream': 'exact', 'name': '%s-resplit-same-sums-%s' % (cls, how), 'ops': [
+                {'op': 'rand', 'nr': [2, 4], 'nt': [1, 4], 'K': 2, 'ntE': E, 'seed': 4},
+                {'op': 'setpl', 'p': [['1', '1/4'], ['1/16', '4']], 'pe': pe},
+                {'op': 'bigH'}, {'op': 'Hk', 'k': 0}, re,
+                {'op': 'bigH'}, {'op': 'Hk', 'k': 0}, {'op': 'Hk', 'k': 1}, {'op': 'H'}, {'op': 'Hkl', 'k': 0, 'l': 1},
+                {'op': 'corrupt', 'x': [one(4), one(1)], 'xe': [one(n) for n in E2], 'nseed': 2, 'ns': 2}]})
     # R4 (seeded change C08_3): rejected init_from_channel_matrix with ANOTHER antenna configuration in the
     # middle of a history; then every observable, then a transmission
     for cls, E in (('plain', []), ('ext', [2])):
@@ -1575,42 +1687,44 @@ def corpus_cases():
 
 # ------------------------------------------------------------------ small-scope enumeration (thorough)
 def enum_alphabet(ext):
-    A = _m([[1 + 1j, 2, -1j, 3, 1], [2j, -2, 1, 1 - 1j, 2], [3, 1j, 1, -1, -2j]])
-    A2 = _m([[2, 1, 1j, -3, 1], [1j, 2, -1, 1 + 1j, 0], [1, 1j, -1, 2, 2j]])
+    """two layouts with the same K and the same sums but another per-user split (the interference sources'
+    antennas included), reached by init_from_channel_matrix (i2) and by randomize (r2); two NON-UNIFORM path
+    losses and None; reads; a transmission"""
+    A = _m([[1 + 1j, 2, -1j, 3, 1, -2], [2j, -2, 1, 1 - 1j, 2, 1j], [3, 1j, 1, -1, -2j, 2]])
+    A2 = _m([[2, 1, 1j, -3, 1, 1], [1j, 2, -1, 1 + 1j, 0, -1], [1, 1j, -1, 2, 2j, 3]])
     if ext:
-        i1 = {'op': 'init', 'M': A, 'nr': [1, 2], 'nt': [2, 1], 'K': 2, 'ntE': [1, 1], 'ints': False,
-              'nte_int': False}
-        i2 = {'op': 'init', 'M': A2, 'nr': [2, 1], 'nt': [1, 2], 'K': 2, 'ntE': [1, 1], 'ints': False,
-              'nte_int': False}
-        p1 = {'op': 'setpl', 'p': [['1', '1/4'], ['1/16', '4']], 'pe': [['1/64', '1/4'], ['1', '1/16']]}
-        p2 = {'op': 'setpl', 'p': [['1/4', '1'], ['1', '1/4']], 'pe': [['1', '1'], ['1/4', '4']]}
-        x = [_m([[1, 2]]), _m([[1j, 1]]), _m([[2, -1]])]
-        cor = None   # data depends on the layout: built per history
+        i1 = {'op': 'init', 'M': A, 'nr': [1, 2], 'nt': [2, 1], 'K': 2, 'ntE': [1, 2]}
+        i2 = {'op': 'init', 'M': A2, 'nr': [2, 1], 'nt': [1, 2], 'K': 2, 'ntE': [2, 1]}
+        r2 = {'op': 'rand', 'nr': [2, 1], 'nt': [1, 2], 'K': 2, 'ntE': [2, 1], 'seed': 11}
+        p1 = {'op': 'setpl', 'p': [['1', '1/4'], ['1/16', '4']], 'pe': [['1/64', '1/4'], ['9/16', '16']]}
+        p2 = {'op': 'setpl', 'p': [['1/4', '1'], ['4', '1/16']], 'pe': [['1', '25/4'], ['1/4', '4']]}
         reads = [{'op': 'bigH'}, {'op': 'H'}, {'op': 'Hk', 'k': 1}, {'op': 'Hne'}, {'op': 'bigHne'}]
     else:
         A = [row[:3] for row in A]
         A2 = [row[:3] for row in A2]
-        i1 = {'op': 'init', 'M': A, 'nr': [1, 2], 'nt': [2, 1], 'K': 2, 'ntE': [], 'ints': False, 'nte_int': False}
-        i2 = {'op': 'init', 'M': A2, 'nr': [2, 1], 'nt': [1, 2], 'K': 2, 'ntE': [], 'ints': False, 'nte_int': False}
+        i1 = {'op': 'init', 'M': A, 'nr': [1, 2], 'nt': [2, 1], 'K': 2, 'ntE': []}
+        i2 = {'op': 'init', 'M': A2, 'nr': [2, 1], 'nt': [1, 2], 'K': 2, 'ntE': []}
+        r2 = {'op': 'rand', 'nr': [2, 1], 'nt': [1, 2], 'K': 2, 'ntE': [], 'seed': 11}
         p1 = {'op': 'setpl', 'p': [['1', '1/4'], ['1/16', '4']], 'pe': None}
-        p2 = {'op': 'setpl', 'p': [['1/4', '1'], ['1', '1/4']], 'pe': None}
+        p2 = {'op': 'setpl', 'p': [['1/4', '1'], ['4', '1/16']], 'pe': None}
         reads = [{'op': 'bigH'}, {'op': 'H'}, {'op': 'Hk', 'k': 1}, {'op': 'Hkl', 'k': 1, 'l': 0}]
     pn = {'op': 'setpl', 'p': None, 'pe': None}
-    return [i1, i2, p1, p2, pn] + reads + [{'op': 'corrupt'}]
+    return [i1, i2, r2, p1, p2, pn] + reads + [{'op': 'corrupt'}]
 
 
 def enum_histories(ext, depth, reduced=False):
     """every sequence of <= `depth` letters after an initial init (corrupt data fitted to the layout);
-    `reduced`: 8-letter alphabet (both layouts, three path-loss settings, big_H, H, corrupt)"""
+    `reduced`: 9-letter alphabet (both layouts, the re-split by randomize, three path-loss settings, big_H, H,
+    corrupt)"""
     alpha = enum_alphabet(ext)
     first = alpha[0]
     if reduced:
-        alpha = alpha[:7] + alpha[-1:]
+        alpha = alpha[:8] + alpha[-1:]
 
     def fit(seq):
         ops, lay = [], None
         for op in seq:
-            if op['op'] == 'init':
+            if op['op'] in ('init', 'rand'):
                 lay = op
             if op['op'] == 'corrupt':
                 one = lambda n: _m([[1 + (i % 2) * 1j, 2 - i] for i in range(n)])
@@ -1649,7 +1763,8 @@ REQUIRED = ['read-mutate-read:plain', 'read-mutate-read:ext', 'relayout:plain', 
             'r4:rejected-noise_var', 'r4:rejected-corrupt_data', 'r4:rejected-read', 'r5:pathloss-zero', 'r5:K=1',
             'r5:zero-symbols', 'r5:noise-var-zero-after-positive', 'r6:scaled-history',
             'r7:corrupt_concatenated_data', 'r7:mutators-before-first-init', 'r7:observer:layout',
-            'r7:observer:ln', 'r7:twin']
+            'r7:observer:ln', 'r7:twin', 'resplit-same-sums:plain:randomize', 'resplit-same-sums:plain:init',
+            'resplit-same-sums:ext:randomize', 'resplit-same-sums:ext:init', 'resplit-same-sums:ext-sources']
 
 
 def check(ctx):
@@ -1684,7 +1799,7 @@ def check(ctx):
                 correspond(ctx, h5, 'enum5-%s' % ('ext' if ext else 'plain'))
                 ctx.extra.setdefault('small_scope', {})['ext' if ext else 'plain'] = \
                     ('all %d histories init + <=4 letters of the %d-letter alphabet; all %d histories init + 5 '
-                     'letters of the 8-letter alphabet' % (len(hs), len(enum_alphabet(ext)), len(h5)))
+                     'letters of the 9-letter alphabet' % (len(hs), len(enum_alphabet(ext)), len(h5)))
     except core.Infra as e:
         if not ctx.broken:
             raise
